@@ -727,6 +727,13 @@ def b13(ctx, rid):
         raise core.AnchorLost('stack pushes in PossibleRevIter::next: %d' % n)
 
 
+def b14(ctx, rid):
+    """a filter is never narrowed by a stale decision: no check-then-act across two critical sections of a filter's lock
+    (C08.D7 instances)"""
+    import props.c08 as c08
+    c08.d7(ctx, rid)
+
+
 RULES = [
     Rule('C10.B1', 'every `definitely absent` answer lies in its owner and is controlled by that owner\'s justifying test; defaults are NeedAdditionalCheck', b1, 11),
     Rule('C10.B2', 'filter.add(key) dominates every insertion into the in-memory header map', b2, 2),
@@ -740,5 +747,6 @@ RULES = [
     Rule('C10.B11', 'Bloom.bits_count and the length of the in-memory bit vector are the same value at every construction and store', b11, 4),
     Rule('C10.B12', 'a fresh bloom / range filter is only attached to an index without records', b12, 2),
     Rule('C10.B13', 'the candidate iterator never pushes a vacated leaf (its None would end the whole traversal)', b13, 1),
+    Rule('C10.B14', 'no decision is carried from a released guard into a later write section of the same filter lock (C08.D7 instances)', b14, 1),
     Rule('C10.B9', 'the range merge can extend both bounds in one call', b9, 1),
 ]
